@@ -511,7 +511,8 @@ def omp_check(chk, entries, names=None):
                 elif issue is None:
                     issue = {"builtin": e["case_name"], "kind": "failing-input", "dm": dm, "annexed": ann, "openmp": mode,
                              "observed": {"statement": r["body_fortran"], "upper_bound": r["ub_text"],
-                                          "omp": r["omp_lines"], "init": r.get("init_text")},
+                                          "omp": r["omp_lines"], "init": r.get("init_text"),
+                                          "reduction_lines": [l for l in r["code_lines"] if "l_" in l or "th_idx" in l]},
                              "expected": {"statement": e["code_text"][si], "upper_bound": e["ub_text"][si],
                                           "reduction_clause": e["is_reduction"]}}
             summary[f"{mode}/dm={dm}"] = n_ok
